@@ -7,6 +7,7 @@ mod ops;
 mod props;
 mod sandbox;
 mod util;
+mod workload;
 
 use driver::*;
 use std::path::Path;
